@@ -119,15 +119,16 @@ def choose_ordinals(sites, total, mode, cap, rng):
     of every distinct source line; mode 'all': every line event."""
     if mode == "all":
         ords = list(range(1, total + 1))
-    else:
-        s = set()
-        for _site, first, last, _hits in sites:
-            s.add(first)
-            s.add(last)
-        ords = sorted(s)
-    if cap and len(ords) > cap:
-        ords = sorted(rng.sample(ords, cap))
-    return ords
+        if cap and len(ords) > cap:
+            ords = sorted(rng.sample(ords, cap))
+        return ords
+    firsts = sorted({first for _site, first, _last, _hits in sites})
+    lasts = sorted({last for _site, _first, last, _hits in sites} - set(firsts))
+    if cap and len(firsts) >= cap:
+        return sorted(rng.sample(firsts, cap))
+    if cap and len(firsts) + len(lasts) > cap:
+        lasts = rng.sample(lasts, cap - len(firsts))   # every source line is a crash point at least once
+    return sorted(firsts + lasts)
 
 
 def run_sweep(args):
@@ -141,12 +142,18 @@ def run_sweep(args):
     out = {"runs": [], "violations": [], "errors": [], "samples": [], "schedules": [], "sweep": None}
     run_seed = args["run_seed"]
     try:
-        base = gen.gen_sweep_base(run_seed, prop, tier, target_cls=args.get("target_cls"))
-        t = base["sweep"]["target"]
-        dry = ZP.submit(base["hash_seeds"]["history"], {"kind": "history", "ops": base["ops"], "faults_off": True,
-                                                       "count_lines": True, "record_sites": True})["records"]
-        total = dry[t].get("lines") or 0
-        sites = dry[t].get("sites") or []
+        for attempt in range(8):
+            # a base whose sets could not be created (a document that raises) gives the target nothing to do: redraw
+            base = gen.gen_sweep_base(run_seed + attempt * 7919, prop, tier, target_cls=args.get("target_cls"))
+            t = base["sweep"]["target"]
+            dry = ZP.submit(base["hash_seeds"]["history"], {"kind": "history", "ops": base["ops"], "faults_off": True,
+                                                           "count_lines": True, "record_sites": True})["records"]
+            total = dry[t].get("lines") or 0
+            sites = dry[t].get("sites") or []
+            if total > 20 and all(r["status"] == "ok" for r in dry[:t]):
+                break
+        base["run_seed"] = run_seed
+        base["sweep"]["attempt"] = attempt
         rng = random.Random(run_seed ^ 0x5EED)
         ords = choose_ordinals(sites, total, args.get("mode", "sites"), args.get("cap", 0), rng)
         out["sweep"] = {"run_seed": run_seed, "target": {k: v for k, v in base["ops"][t].items() if k not in ("doc", "recipe")},
